@@ -125,6 +125,48 @@ def r1_spec_tables(ctx, F):
                         if q != (o, r):
                             others |= reach_p[q]
                     mut_ivs[(o, r)] = mutates_self(ivs, both - others)
+            # guards that compare the operation's payload with the object state must agree in polarity
+            def payload_state_tests(b):
+                out = []
+                for c in b.calls_to('PartialEq::eq', 'PartialEq::ne'):
+                    vs = [resolve_arg(b, b.val(a)) for a in c.args[:2]]
+                    roots = sorted(v.key for v in vs if v.kind == 'arg')
+                    if roots == [1, 2]:
+                        eq = c.short.endswith('::eq') or c.dshort.endswith('::eq')
+                        out.append((b.branch(c, True) if eq else b.branch(c, False),
+                                    b.branch(c, False) if eq else b.branch(c, True)))
+                return out
+
+            def polarity(b, tests, blk):
+                for (eq_e, ne_e) in tests:
+                    if eq_e and b.edges_dominate(eq_e, blk):
+                        return 'payload == state'
+                    if ne_e and b.edges_dominate(ne_e, blk):
+                        return 'payload != state'
+                return 'unconditional'
+            t_inv, t_ivs = payload_state_tests(inv), payload_state_tests(ivs)
+            if t_inv or t_ivs:
+                pol_inv, pol_ivs = {}, {}
+                for o in ops:
+                    blocks = inv.reach_under([(op_sw_i, o)])
+                    for (i, si, st) in inv.assigns(lambda st: st['rv']['k'] == 'agg' and st['rv'].get('adt') == retadt):
+                        if i in blocks:
+                            pol_inv.setdefault((o, st['rv']['variant']), set()).add(polarity(inv, t_inv, i))
+                for (o, r) in accepted:
+                    both = reach_p[(o, r)]
+                    for (i, si, st) in ivs.assigns(lambda st: st['lhs']['l'] == 0 and not st['lhs']['p']):
+                        rv = st['rv']
+                        if i in both and not (rv['k'] == 'use' and rv['op']['k'] == 'const' and rv['op'].get('val') == 0):
+                            pol_ivs.setdefault((o, r), set()).add(polarity(ivs, t_ivs, i))
+                for pr in sorted(set(pol_inv) | set(pol_ivs)):
+                    a, b_ = pol_inv.get(pr, set()), pol_ivs.get(pr, set())
+                    if not a or not b_:
+                        continue
+                    ctx.check(a == b_, rule, 'guard-polarity:%s->%s' % pr, ivs,
+                              good='%s->%s is produced and accepted under the same payload/state condition %s' % (pr[0], pr[1], sorted(a)),
+                              bad='%s: invoke produces %s for %s when %s, but is_valid_step accepts it when %s: a '
+                                  'step is accepted that invoking the operation could not have returned (or vice '
+                                  'versa)' % (selfty, pr[1], pr[0], sorted(a), sorted(b_)))
             ctx.check(produced == accepted and bool(produced), rule, 'accepted-pairs==produced-pairs', ivs,
                       good='is_valid_step accepts exactly the (op, ret) kinds invoke produces: %s' % sorted(produced),
                       bad='%s: is_valid_step can accept %s but invoke can produce %s: only-accepted %s, '
